@@ -128,7 +128,7 @@ def run(ck):
     ck.assumptions = ["std::shared_ptr / allocate_shared semantics (reference count = number of handles) trusted", "moved-from handles are only destroyed or assigned to (discipline of the model)",
                       "sharing observed through address equality of the const poly_obj()"]
     vf.run_deps(ck, ['C17', 'C07'])
-    return ck.finish(trusted=["coqc 8.16.1 kernel", "extraction + driver.ml", "h_polyp.cpp interpreter, AddressSanitizer + LeakSanitizer + UBSan"])
+    return ck.finish(trusted=["coqc 8.16.1 kernel", "extraction + driver.ml", "h_polyp.cpp interpreter, AddressSanitizer + LeakSanitizer + UBSan", "source reader: tools/cxxpolyp2coq.py + ShSem.v (special members, forwarding members of poly_p)"])
 
 def replay(ck, rec):
     print("replay sequence:", rec.get("sequence")); return 1
